@@ -25,14 +25,14 @@ func TestCheck(t *testing.T) {
 	r := ev.Start("C11")
 	defer r.Finish()
 	r.SetRule("case = one generated timeline: object under test (context from SuspendableClock.NewContextWithTimeout, timer from NewTimer, or the run context of a " +
-		"LocalBuildExecutor with a blocking fake runner), timeout 0..100 units, threshold 1..10 units, maximum compensation 0..>timeout, start offset, 1-4 readers with " +
+		"LocalBuildExecutor with a blocking fake runner), timeout 0..100 units, threshold 1..10 units, maximum compensation 0..>timeout, start offset, unit = 1 ms (half of the cases), 1 ms + 1 ns, 1 s, 1 min or 7 days (executor: up to 1 min), 1-4 readers with " +
 		"non-overlapping-per-reader suspension intervals (direct Suspend/Resume, SuspendingBlobAccess Get/GetFromComposite/Put/FindMissing/GetCapabilities, " +
 		"SuspendingDirectoryFetcher; every decorated call also in a failing variant, buffers failing before any data / mid-stream and finished in nine ways incl. early close, size limit, clones), optional early cancellation/Stop and parent cancellation; operations of different readers at one instant run concurrently. " +
 		"Additionally concurrent rounds: 2-6 reader goroutines doing Suspend/Resume pairs (directly and through both decorators) over a base clock that moves on every Now() call and " +
 		"whose Now() may let an intruder's complete Suspend/stall/Resume run between sampling the time and returning it; judged by interval bounds that hold for every interleaving. " +
 		"In the timelines the base clock only moves to the next timeline event or the next base timer; ties are broken by the PRNG. " +
 		"non-trivial = at least one counted situation; distinct = hash of parameters plus the observed sequence of (time, event) incl. base timer firings and the outcome")
-	r.Assume("1 unit = 1 ms of virtual time; thresholds are >= 1 unit (bb_worker hard-codes 100 ms; a zero threshold makes the re-arm loop spin and is outside the domain)")
+	r.Assume("1 unit = 1 ms, 1 ms + 1 ns, 1 s, 1 min or 7 days of virtual time, fixed per timeline; thresholds are >= 1 unit (bb_worker hard-codes 100 ms; a zero threshold makes the re-arm loop spin and is outside the domain)")
 	r.Assume("decided on the simulated base clock only; OS scheduling jitter between a base timer firing and its handling is not modelled (the driver waits for quiescence after every firing)")
 	r.Assume("concurrent rounds: a reader certainly has the clock suspended from the return of its suspending call to the call of its resuming call and possibly from call to return; timestamps come from the same auto-ticking clock")
 	r.Assume("late delivery: the re-arm loop evaluates unsuspended time for the instant its base timer carries; its estimate may be the true value of any instant between due and delivery, so firing, re-arm duration and reported duration are judged against that interval and lateness is bounded by the unsuspended time that passed during the injected delays")
@@ -76,6 +76,13 @@ func TestCheck(t *testing.T) {
 	r.Floor("expiry-delivered-late-while-unsuspended", 10)
 	r.Floor("expiry-delivered-late-while-suspended", 10)
 	r.Floor("executor-deadline-exceeded", 5)
+	// The same timelines at other scales than milliseconds.
+	for _, sc := range []string{"milliseconds", "millisecond-plus-nanosecond", "seconds", "minutes", "weeks"} {
+		r.Floor("deadline-by-unsuspended-time-at-scale:"+sc, 10)
+		r.Floor("cap-reached-at-scale:"+sc, 10)
+	}
+	r.Floor("executor-deadline-exceeded-timeout-of-seconds-or-more", 5)
+	r.Floor("executor-ran-for-no-whole-number-of-milliseconds", 5)
 	r.Floor("executor-finished-in-time", 5)
 
 	r.Floor("concurrent-suspension-intervals", 200)
